@@ -79,6 +79,7 @@ STAGES = {
         ('polyply.src.topology:Topology.convert_to_vermouth_system', 'convert_to_vermouth_system'),
         ('vermouth.gmx.gro:write_gro', 'write_gro'),
         ('vermouth.gmx.gro:write_gro@mid', 'write_gro'),
+        ('vermouth.gmx.gro:write_gro@real', 'write_gro'),
     ],
     'gen_seq': [
         ('polyply.src.gen_seq:MacroString', 'for macro_string in macro_strings'),
@@ -127,6 +128,19 @@ def run_program(prog, wd, outname, fail_target=None, fresh_writer=True):
                     raise Injected(fail_target)
             return boom
         hooks[fail_target[:-4]] = factory_mid
+    elif fail_target and fail_target.endswith('@real'):
+        # the REAL writer, called as the program calls it (its own arguments), fails in the middle of serialisation:
+        # the last atom of the system has no position
+        def factory_real(real):
+            def boom(system, outpath, *a, **k):
+                mol = system.molecules[-1]
+                del mol.nodes[list(mol.nodes)[-1]]['position']
+                try:
+                    return real(system, outpath, *a, **k)
+                except KeyError as exc:
+                    raise Injected(fail_target) from exc
+            return boom
+        hooks[fail_target[:-5]] = factory_real
     elif fail_target:
         def factory(real):
             def boom(*a, **k):
@@ -194,17 +208,17 @@ def run(ctx):
     except core.CoqEvalError as exc:
         ctx.note(str(exc)[:600])
         ctx.broken.append('correspondence:C20 model evaluation failed')
-        return
-    skeleton = {p: (list(t[0]), t[1]) for p, t in zip(STAGES, texts)}
+        texts = None          # the runs below still judge the implementation (search for a concrete failing input)
+    skeleton = {p: (list(t[0]), t[1]) for p, t in zip(STAGES, texts)} if texts else None
     for prog, stages in STAGES.items():
         for target, needle in stages:
-            if needle and not any(needle in t for t in skeleton[prog][0]):
+            if skeleton and needle and not any(needle in t for t in skeleton[prog][0]):
                 ctx.broken.append(f'correspondence:stage {needle} of {prog} is not in the regenerated skeleton')
                 ctx.note(f"stage table out of date: {needle} not found in {prog} skeleton")
     exprs, observed, descr = [], [], []
     for prog, stages in STAGES.items():
         outname = OUTNAME[prog]
-        nvis = skeleton[prog][1]
+        nvis = skeleton[prog][1] if skeleton else 0
         for target, needle in stages:
             for pre in (None, 'OLD CONTENT'):
                 with systems.Workdir() as wd:
@@ -231,9 +245,10 @@ def run(ctx):
                     ctx.violation('spec', f"{prog} failed in stage {target} but the output directory changed: before {sorted(before)} after {sorted(after)}",
                                   {'program': prog, 'stage': target, 'before': before, 'after': after})
                 # model: a crash at any statement index k <= first visible leaves the directory unchanged
-                exprs.append(f"after {lit(prog)} {nvis}%nat {lit(outname)} {lit(sorted(before.items()))}")
-                observed.append(sorted(after.items()))
-                descr.append((prog, target))
+                if skeleton:
+                    exprs.append(f"after {lit(prog)} {nvis}%nat {lit(outname)} {lit(sorted(before.items()))}")
+                    observed.append(sorted(after.items()))
+                    descr.append((prog, target))
     # success runs with backup chains
     for prog in STAGES:
         outname = OUTNAME[prog]
@@ -259,15 +274,19 @@ def run(ctx):
                 ctx.violation('spec', f"{prog} succeeded but {outname} is missing or incomplete", {'program': prog, 'after': after})
             if prog != 'gen_seq':
                 # Gromacs-style backup: old content under the first free #name.k#, everything else untouched
-                exprs.append(f"after {lit(prog)} 1000%nat {lit(outname)} {lit(sorted(before.items()))}")
-                observed.append(sorted((k, 'NEW' if k == outname else v) for k, v in after.items()))
-                descr.append((prog, f'success with {nb} existing'))
+                if skeleton:
+                    exprs.append(f"after {lit(prog)} 1000%nat {lit(outname)} {lit(sorted(before.items()))}")
+                    observed.append(sorted((k, 'NEW' if k == outname else v) for k, v in after.items()))
+                    descr.append((prog, f'success with {nb} existing'))
                 if nb >= 1 and after.get(f'#{outname}.{nb}#') != 'OLD CONTENT':
                     ctx.violation('spec', f"{prog}: the previous {outname} was not kept as #{outname}.{nb}#: {sorted(after)}",
                                   {'program': prog, 'before': before, 'after': after})
                 for k, v in before.items():
                     if k != outname and after.get(k) != v:
                         ctx.violation('spec', f"{prog}: existing file {k} was modified", {'program': prog, 'before': before, 'after': after})
+    if not skeleton:
+        same_process(ctx)
+        return
     try:
         res = core.coq_eval_cases(ctx, 'fs', PRELUDE, exprs, chunk=200)
     except core.CoqEvalError as exc:
